@@ -39,7 +39,8 @@ CLAIMED["C01"] = dict(
          "stated as hypothesis swin, discharged for streams of at most 2^15 messages); AT MOST ONCE in every mode: "
          "the deliveries on a stream - ordered or unordered - are the messages of a duplicate-free list of sent "
          "fragment lists (counting invariant of pop_messages: every chunk is retained or consumed by exactly one "
-         "delivered run); str/bytes/empty values round-trip through four distinct PPIDs (7 theorems). PARTIAL: "
+         "delivered run), also for all streams at once with arbitrary FORWARD-TSN chunks interleaved (theorem 8); "
+         "str/bytes/empty values round-trip through four distinct PPIDs (8 theorems). PARTIAL: "
          "'eventually delivered after the network heals' is observed by the two-endpoint scenario oracle.",
     design_ref="5 / C01",
     note="Network faults are abstracted as an arbitrary arrival list over sent chunks; SACK-path faults cannot "
@@ -182,9 +183,11 @@ CLAIMED["C06"] = dict(
          "including fragments not yet sent; (3) in every reachable sender state _transmit never hands an abandoned "
          "chunk to the network; (4) abandonment preserves the sender's no-deadlock invariant; (5) at the receiver a "
          "FORWARD-TSN leaves every stream it does not name alone except for pruning chunks at or below its own "
-         "cumulative TSN (sequence counter unchanged, nothing delivered). PARTIAL: duplicate-freedom and order of PR "
-         "deliveries are proved (C01 theorems 5 and 7) for arrival lists without FORWARD-TSN only; with FORWARD-TSN "
-         "they are checked by the receiver-level and two-endpoint oracles; end-to-end non-interference and recovery after healing are statements over two endpoints, observed on the "
+         "cumulative TSN (sequence counter unchanged, nothing delivered); (6) with ARBITRARY FORWARD-TSN chunks in "
+         "between, the deliveries on all streams are messages of pairwise different chunk runs, each the fragment "
+         "list of one sent message: no sent message is delivered twice (chunk accounting of the whole receiver). "
+         "PARTIAL: the ORDER of deliveries on ordered PR channels is proved without FORWARD-TSN only (C01 theorem 5); "
+         "with FORWARD-TSN it is checked by the receiver-level and two-endpoint oracles; end-to-end non-interference and recovery after healing are statements over two endpoints, observed on the "
          "two-endpoint simulator (mixed reliable / PR channels, faults, heal, probe message per channel), not "
          "proved; six genuine stall/loss defects found that way are repaired in /repo.",
     design_ref="5 / C06",
